@@ -172,8 +172,39 @@ def rule_part(run):
     lp = loops[0]
     ov = [n for n in ast.walk(lp) if isinstance(n, ast.Assign) and norm(n.targets[0]) == 'original_vol']
     sc = [n for n in ast.walk(lp) if isinstance(n, ast.AugAssign) and norm(n.target) == 'blk.volume']
+    sc_plain = [n for n in ast.walk(lp) if isinstance(n, ast.Assign) and norm(n.targets[0]) == 'blk.volume']
+    # the scaling and the creation of matrix blocks must sit under the same eligibility guard
+    from ..core import parent_map
+    pm = parent_map(lp)
+
+    def guards(node):
+        out, cur = [], node
+        while cur in pm:
+            par = pm[cur]
+            if isinstance(par, ast.If) and cur in par.body: out.append(norm(par.test))
+            cur = par
+        return out
+    mk0 = [c for c in ast.walk(lp) if isinstance(c, ast.Call) and isinstance(c.func, ast.Name) and c.func.id == 't2block']
+    scal = (sc + sc_plain)[:1]
+    if scal and mk0:
+        gs, gm = guards(scal[0]), [g for g in guards(mk0[0]) if 'original_vol' in g or 'atmos_volume' in g]
+        if gm and not all(g in gs for g in gm):
+            run.violated('t2grid.minc :: fracture scaling under the same guard as the matrix blocks',
+                         'the block volume is scaled by the fracture fraction outside `%s`, the condition under which matrix continua '
+                         'are created: an atmosphere / boundary / inactive block in the selection loses volume with no continua to hold it'
+                         % gm[0], where=fi.where(scal[0]))
+        elif gm: run.ok('t2grid.minc :: fracture scaling under the same guard as the matrix blocks', where=fi.where(scal[0]))
+    if sc_plain and not sc:
+        r = compare(sc_plain[0].value, 'original_vol * volume_fractions[0]')
+        k2 = 't2grid.minc :: fracture block volume = V * f[0]'
+        if r == 'equal': run.ok(k2, where=fi.where(sc_plain[0]))
+        elif r == 'different': run.violated(k2, 'fracture volume set to `%s`' % norm(sc_plain[0].value), where=fi.where(sc_plain[0]))
+        else: run.unknown(k2, norm(sc_plain[0].value), where=fi.where(sc_plain[0]))
+        sc = None
     key = 't2grid.minc :: original volume captured before scaling'
-    if len(ov) == 1 and len(sc) == 1:
+    if sc is None:
+        pass
+    elif len(ov) == 1 and len(sc) == 1:
         good = compare(ov[0].value, 'blk.volume') == 'equal' and ov[0].lineno < sc[0].lineno
         run.check(good, key, 'original_vol = %s at line %d, fracture scaling at line %d' % (norm(ov[0].value), ov[0].lineno, sc[0].lineno), where=fi.where(ov[0]))
         r = compare(sc[0].value, 'volume_fractions[0]')
